@@ -101,6 +101,22 @@ OrderLemma ==
         /\ CodeSentOrder(t) \in SentOrders(t) /\ sa = SortedSAWith(t, CodeSentOrder(t)) /\ IsSortedSA(sa, t)
         /\ \A g \in AdmissibleSAs(t) : IsSortedSA(g, t) <=> g = sa
 
+\* the witness form of IsValidSA used for texts with very many sentinels is the same predicate:
+\* with the true witness it agrees with IsValidSA on every permutation, a wrong witness is refused
+RowWitness(g) == [i \in 1..N |-> IF t[i] = Sent /\ \E r \in 1..N : g[r] = i - 1
+                                  THEN (CHOOSE r \in 1..N : g[r] = i - 1) - 1 ELSE -1]
+WitnessLemma ==
+    (mode = "order" /\ N <= MaxPermN) =>
+        \A g \in Perms(N) :
+            /\ IsValidSAW(g, t, RowWitness(g)) <=> IsValidSA(g, t)
+            /\ \A i \in 1..N : t[i] = Sent => ~IsValidSAW(g, t, [RowWitness(g) EXCEPT ![i] = @ + 1])
+\* closed-form family of the long-text driver class: the suffix array of A^(n-1)$ is n-1, ..., 0
+UnaryLemma ==
+    mode = "order" =>
+        \A a \in Sym : t = UnaryText(N, a, Sent) =>
+            /\ \A r \in 1..N : sa[r] = UnarySA(N)[r]
+            /\ IsValidSA(UnarySA(N), t) /\ AdmissibleSAs(t) = {sa}
+
 \* the carried l never overshoots: the loop may skip the first l comparisons
 KasaiCarry ==
     (mode = "kasai" /\ st.p < N - 1) => LcpLen(t, st.p, sa[aux[st.p + 1]]) >= st.l
